@@ -55,6 +55,13 @@ SEPS = [" ", " ", "\t", "  ", "\n", "\n", "\n   "]
 COMMENTS = ["# a comment", "#c", '# "quoted" ; , .', "# <http://ex.org/a> ex:p ex:o ."]
 
 
+# standard Turtle constructs outside the reader's dialect (anonymous nodes, collections, other string forms)
+RAW_OBJECTS = ["[ <http://ex.org/q> <http://ex.org/o> ]", "[]", "( <http://ex.org/a> <http://ex.org/b> )", "()", "'single'",
+               "'it\\'s'", '"""long"""', '"""two\nlines"""', "'''x'''", '[ <http://ex.org/q> "v" ; <http://ex.org/r> 5 ]',
+               "( 1 2 )", "[ a <http://ex.org/C> ]", '"a"@en , [ ]']
+RAW_SUBJECTS = ["[]", "[ <http://ex.org/q> <http://ex.org/o> ]", "( <http://ex.org/a> )"]
+
+
 class Chooser(object):
     """consumes a list of drawn integers cyclically; keeps layout choices shrinkable and replayable"""
 
@@ -137,6 +144,11 @@ def build(case):
             header.append("@prefix %s: <%s> ." % (p, ns))
             declared[p] = ns
     rebind = Chooser(case.get("rebind"))
+    ood = case.get("ood") or {}
+    glue_at = ood.get("glue")           # index of the punctuation token that loses the blank before it
+    raw_at, raw_obj = ood.get("raw_at"), ood.get("raw_obj")     # object / subject of the n-th statement replaced by a raw construct
+    n_punct = [0]
+    n_stmt = [0]
     if use_base:
         header.append("@base <%s> ." % use_base)
     # grouping: consecutive triples with the same subject (and predicate) may share it
@@ -157,6 +169,12 @@ def build(case):
                 labels.add("prefix-rebound")
         stoks = [render_iri(s[1], ch, declared, use_base, "s") if s[0] == "iri" else s[1],
                  render_iri(p, ch, declared, use_base, "p"), render_obj(o, ch, declared, use_base)]
+        if raw_at is not None and n_stmt[0] == raw_at:
+            if raw_obj < len(RAW_OBJECTS):
+                stoks[2] = RAW_OBJECTS[raw_obj]
+            else:
+                stoks[0] = RAW_SUBJECTS[(raw_obj - len(RAW_OBJECTS)) % len(RAW_SUBJECTS)]
+        n_stmt[0] += 1
         expected.append((tuple(s), p, obj_expected(o)))
         j = i + 1
         cur_p = p
@@ -188,6 +206,10 @@ def build(case):
         text = stoks[0]
         for tk in stoks[1:]:
             sep = SEPS[sp.pick(len(SEPS))]
+            if tk in (",", ";", "."):
+                if glue_at is not None and n_punct[0] == glue_at:
+                    sep = ""
+                n_punct[0] += 1
             if "\n" in sep:
                 labels.add("linebreak-in-statement")
                 c = cm.pick(6)
@@ -214,7 +236,12 @@ def build(case):
             joiner = "\r\n"
             labels.add("crlf")
         body += text + joiner
-    doc = "\n".join(lines_out) + "\n" + body + ("" if body.endswith("\n") else "\n")
+    if ood.get("sparql_header"):
+        # SPARQL-style directives (legal Turtle 1.1, outside the reader's dialect)
+        lines_out = [("PREFIX" + ln[len("@prefix"):].rstrip()[:-1].rstrip()) if ln.startswith("@prefix")
+                     else ("BASE" + ln[len("@base"):].rstrip()[:-1].rstrip()) if ln.startswith("@base") else ln for ln in lines_out]
+    sep_hb = " " if (ood.get("join_header") and lines_out and not lines_out[-1].startswith("#")) else "\n"
+    doc = "\n".join(lines_out) + sep_hb + body + ("" if body.endswith("\n") else "\n")
     if any(o[0] == "lit" and any(pc in SPECIAL_PIECES for pc in o[3]) for s, p, o in triples):
         labels.add("special-literal")
     if any(o[0] == "lit" and DTYPES[o[2]][0].startswith("@") for s, p, o in triples):
@@ -273,6 +300,8 @@ def check(case):
         return check_probe(case)
     c = normalize_case(case)
     doc, expected, labels = build(c)
+    if case.get("ood"):
+        return check_ood(case, doc, labels)
     exp = [(("iri", s[1]) if s[0] == "iri" else ("bnode", s[1]), p, o) for s, p, o in expected]
     try:
         rl = rdflib_parse(doc)
@@ -295,6 +324,31 @@ def check(case):
         extra = [t for t in res if t not in exp]
         return violation("document\n%s\n missing %s\n unexpected %s\n (%d yielded, %d expected)" % (doc, missing[:3], extra[:3], len(res), len(exp)), labels, nt)
     return ok(labels, nt)
+
+
+# ------------------------------------------------------------------ out-of-dialect documents (generated)
+
+def check_ood(case, doc, labels):
+    """a generated in-dialect document with ONE feature outside the dialect (no blank before a punctuation token, an anonymous
+    node / collection / other string form as object or subject, SPARQL-style directives, a directive sharing its line with a
+    statement).  Oracle (last clause of the property): the reader raises, or it yields exactly the triples a standard Turtle
+    parser (rdflib) yields; a document rdflib rejects is not Turtle at all and is discarded."""
+    labels = set(labels) | {"out-of-dialect", "ood:" + "+".join(sorted(k for k, v in case["ood"].items() if v is not None and v is not False and k != "raw_obj"))}
+    try:
+        rl = rdflib_parse(doc)
+    except Exception:
+        return discard("ood-rejected-by-rdflib")
+    res, crash = read_doc(doc)
+    if crash is not None:
+        if isinstance(crash, sut.Hang):
+            if sut.confirm_loop(lambda: list(BigTtlTriplesYielder(raw_graph=doc).yield_triples())):
+                return violation("reader does not terminate on out-of-dialect document\n%s" % doc, labels, True)
+            return discard("slow")
+        return ok(labels | {"probe-raised"}, True)
+    got, want = strip_b(res), strip_b(rl)
+    if got != want:
+        return violation("out-of-dialect document read silently as other triples instead of raising\n%s\n yielded %s\n standard parser %s" % (doc, got[:6], want[:6]), labels, True)
+    return ok(labels | {"probe-agrees"}, True)
 
 
 # ------------------------------------------------------------------ out-of-dialect probes
@@ -382,6 +436,12 @@ def cases(draw):
             "base": draw(st.sampled_from([False, True, 2])), "prefix_mask": draw(st.integers(0, 255))}
     if draw(st.integers(0, 3)) == 0:
         case["rebind"] = draw(ints)
+    if draw(st.integers(0, 5)) == 0:
+        k = draw(st.integers(0, 3))
+        n_raw = len(RAW_OBJECTS) + len(RAW_SUBJECTS)
+        case["ood"] = {"glue": draw(st.integers(0, 5)) if k == 0 else None,
+                       "raw_at": draw(st.integers(0, 2)) if k == 1 else None, "raw_obj": draw(st.integers(0, n_raw - 1)) if k == 1 else None,
+                       "sparql_header": k == 2, "join_header": k == 3}
     return case
 
 
